@@ -213,9 +213,9 @@ func runRing(op string) (out string) {
 			for i, v := range row {
 				dv := decodeValue(m.Metadata.Columns[i].Type, v)
 				if strings.HasPrefix(dv, "u") && dv != "u4f2b29e659b54e2d8fd601e32e67f0d7" {
-					if a, ok := oracle[dv[1:]]; ok { // a deterministic version-3 UUID of a configured address
-						dv = "hostid(" + a + ")"
-					} else {
+					// the model computes the bytes itself (Model/Md5); independently of it, a host id must be the
+					// version-3 UUID of one of the configured addresses
+					if _, ok := oracle[dv[1:]]; !ok {
 						dv = "hostid-unknown:" + dv
 					}
 				}
